@@ -104,6 +104,14 @@ def gen_cases(rng, tier, count=None):
             cases.append(gen.algo_case(rng, algo, tier, part=part, dim=dim, n=n or None, fams=fams, inject_p=0.3))
             continue
         cases.append(gen.algo_case(rng, algo, tier, part=part, dim=dim, fams=fams, inject_p=0.3))
+    cheap = ["SOO", "DOO", "DOO_delta", "SequOOL", "StroquOOL", "StoSOO", "Zooming", "HCT", "VHCT", "PCT", "VPCT",
+             "POO_HCT", "GPO_HCT"]
+    for i in range(8 if tier == "quick" else 200):
+        # long horizons (budgets beyond the usual grid, counters crossing 2^11 .. 2^13) for the cheap algorithms
+        n = int(rng.integers(2060, 2300)) if tier == "quick" else int(rng.choice([2100, 4200, 8300]))
+        c = gen.algo_case(rng, cheap[i % len(cheap)], tier, n=n, T=n, fams=fams, dim=int(rng.integers(1, 3)))
+        c["_cost"] = 20.0
+        cases.append(c)
     for c in cases:
         if c["n"] <= 333 and rng.random() < 0.5:
             c["probe_stops"] = float(rng.choice([0.1, 0.3, 1.0])) if c["algo"] != "VROOM" else 0.05
